@@ -158,6 +158,7 @@ func (ord *Order) ValidateWithContext(ctx context.Context) error {
 	return tax.ValidateStructWithContext(ctx, ord,
 		validation.Field(&ord.Regime),
 		validation.Field(&ord.Addons),
+		validation.Field(&ord.Tags.List, tax.TagsIn(supportedTagsFor(ShortSchemaOrder, r, ord.AddonDefs())...)),
 		validation.Field(&ord.UUID),
 		validation.Field(&ord.Type,
 			validation.Required,
